@@ -30,7 +30,7 @@ impl InnerFunctionManager {
                         min = Some(num);
                     }
                 }
-                Ok(Value::Number(min.unwrap()))
+                Ok(Value::Number(min.ok_or(Error::ParamInvalid())?))
             }),
         );
 
@@ -44,7 +44,7 @@ impl InnerFunctionManager {
                         max = Some(num);
                     }
                 }
-                Ok(Value::Number(max.unwrap()))
+                Ok(Value::Number(max.ok_or(Error::ParamInvalid())?))
             }),
         );
 
